@@ -185,6 +185,9 @@ def _ens(r):
 
     rng = np.random.default_rng(r["seed"])
     n, nc = r["n_atoms"], r["n_conf"]
+    if r.get("many_conf"):
+        # conformer-search output: dozens to hundreds of conformers of a small molecule (kept small so that the float64 reference fits)
+        n, nc = min(n, 5), r["many_conf"]
     els = [int(x) for x in rng.choice([1, 6, 7, 8, 9, 15, 16, 17, 35], size=n)]
     base = rng.normal(size=(n, 3)) * r["spread"]
     coords = np.array([base + rng.normal(size=(n, 3)) * 0.3 for _ in range(nc)])
@@ -202,7 +205,7 @@ def _grid(r, ens):
     from molli.descriptor.gridbased import rectangular_grid
 
     c = np.vstack(ens.coords)
-    return rectangular_grid(c.min(axis=0), c.max(axis=0), padding=r["gpad"], spacing=r["gspacing"])
+    return rectangular_grid(c.min(axis=0), c.max(axis=0), padding=r["gpad"], spacing=max(r["gspacing"], 1.5) if r.get("many_conf") else r["gspacing"])
 
 
 def check_nearest(r) -> list[Fail]:
@@ -413,14 +416,14 @@ def check_fields(r) -> list[Fail]:
 
 
 def classify_fields(r):
-    return r["n_atoms"] >= 2, ["weighted" if r["weighted"] else "unweighted", f"n_conf={r['n_conf']}", "some_weights_exactly_zero" if (r.get("zero_w") and r["n_conf"] >= 2) else "all_weights_positive", "grid=" + ["float32", "float32", "float64", "int64_lattice"][r.get("grid_kind", 0) if r.get("grid_kind", 0) != 0 else 0]]
+    return r["n_atoms"] >= 2, ["weighted" if r["weighted"] else "unweighted", f"n_conf={r.get('many_conf') or r['n_conf']}", "some_weights_exactly_zero" if (r.get("zero_w") and r["n_conf"] >= 2) else "all_weights_positive", "grid=" + ["float32", "float32", "float64", "int64_lattice"][r.get("grid_kind", 0) if r.get("grid_kind", 0) != 0 else 0]]
 
 
 def strat_desc(tier):
     return st.fixed_dictionaries({
         "seed": st.integers(0, 10**6), "n_atoms": st.one_of(st.integers(2, 12), st.integers(2, 40)), "n_conf": st.integers(1, 4), "spread": st.sampled_from([1.5, 3.0, 6.0]),
         "gpad": st.sampled_from([0.0, 1.0, 3.0]), "gspacing": st.sampled_from([1.0, 0.7, 1.5, 2.5, 4.0]), "cut": st.sampled_from([2.0, 1.0, 3.5, 0.5]), "eps": st.sampled_from([0.5, 0.0, 0.1, 1.0]),
-        "weighted": st.booleans(), "grid_kind": st.sampled_from([0, 0, 1, 2]), "zero_w": st.sampled_from([0, 0, 1, 2, 5, 6]), "memfault": st.sampled_from([False, False, True]),
+        "weighted": st.booleans(), "grid_kind": st.sampled_from([0, 0, 1, 2]), "zero_w": st.sampled_from([0, 0, 1, 2, 5, 6]), "memfault": st.sampled_from([False, False, True]), "many_conf": st.sampled_from([0, 0, 0, 0, 70, 130, 257]),
     })
 
 
